@@ -8,8 +8,9 @@ CONSTANTS
   MAXDEPTH = 1
   MAXLEN = 4
   MAXPTS = 16
+  COEF = TRUE
   EMIT = FALSE
 VIEW AbstractView
 INVARIANTS Disjoint ValuesAttached NeededWithinLimits OrderIndependent NothingDropped CandidatesNotLoaded
-PROPERTIES LoadedMonotone UpdateKeepsLoaded FrameRefine ClearOnlyDropsNeeded LoadMakesNeededLoaded LimitsPersist
+PROPERTIES LoadedMonotone UpdateKeepsLoaded FrameRefine ClearOnlyDropsNeeded LoadMakesNeededLoaded LimitsPersist RemoveOnlyDrops SetCoefKeepsPoints
 CHECK_DEADLOCK FALSE
